@@ -9,6 +9,8 @@ import (
 	"net/http"
 	"net/http/httptest"
 	"net/url"
+	"regexp"
+	"strconv"
 	"strings"
 	"time"
 
@@ -158,6 +160,18 @@ const (
 	c20nKinds
 )
 
+// c20drawLevel: mostly the seven named levels; one time in six a level without
+// a name (SetLevel takes any: FatalLevel+1 to silence a logger, levels below
+// Debug for verbosity), which the handler must report like any other.
+func c20drawLevel(g *zsim.Stream) zapcore.Level {
+	if g.Chance(6) {
+		return pick(g, zapcore.Level(-128), zapcore.Level(-3), zapcore.Level(-2), zapcore.Level(6), zapcore.Level(7), zapcore.Level(100), zapcore.Level(127))
+	}
+	return zapcore.Level(g.Draw(7) - 1)
+}
+
+var c20number = regexp.MustCompile(`-?[0-9]+`)
+
 var c20kindNames = [...]string{"GET", "PUT", "other-method", "UnmarshalText", "flag.Set", "json-decode", "yaml-decode", "SetLevel", "Level", "Enabled", "round-trip"}
 
 type regIn struct {
@@ -197,7 +211,7 @@ var c20model = porcupine.Model{
 
 func runC20(c *Ctx) {
 	g, f, r := c.G, c.F, c.R
-	initial := zapcore.Level(g.Draw(7) - 1)
+	initial := c20drawLevel(g)
 	lvl := zap.NewAtomicLevelAt(initial)
 	core, _ := observer.New(lvl)
 	lg := zap.New(core)
@@ -234,7 +248,7 @@ func runC20(c *Ctx) {
 				op.fault = 1 // a truncated body may name another level: sequential runs only
 			}
 		}
-		op.level = zapcore.Level(g.Draw(7) - 1)
+		op.level = c20drawLevel(g)
 		op.zero = g.Chance(6)
 		if op.kind == c20Put && g.Chance(8) {
 			// a long body: the level pair sits at about a power-of-two offset
@@ -407,6 +421,15 @@ func runC20(c *Ctx) {
 					return false
 				}
 				cls, named := c20classify(*resp.Level)
+				if cls != 1 {
+					// a level without a name (set through SetLevel) is reported
+					// by its number, in whatever notation
+					if m := c20number.FindString(*resp.Level); m != "" {
+						if n, err := strconv.Atoi(m); err == nil && n >= -128 && n <= 127 && (n < int(zapcore.DebugLevel) || n > int(zapcore.FatalLevel)) {
+							cls, named = 1, zapcore.Level(n)
+						}
+					}
+				}
 				if cls != 1 {
 					c.Fail("C20: the response names something that is not a level", "%q", *resp.Level)
 					return false
@@ -648,6 +671,10 @@ func runC20(c *Ctx) {
 			}
 		case c20RoundTrip:
 			l := op.level
+			if l < zapcore.DebugLevel || l > zapcore.FatalLevel {
+				// round trips are promised for the valid (named) levels
+				l = zapcore.Level(int(op.level)&7%7 - 1)
+			}
 			for form, text := range map[string]string{"String": l.String(), "CapitalString": l.CapitalString()} {
 				var back zapcore.Level = 42
 				if err := back.UnmarshalText([]byte(text)); err != nil || back != l {
